@@ -14,6 +14,10 @@ var emptyingBatches = []B{{in("a", "1")}, {in("b", "1")}, {d("a")}, {d("b")}, {i
 
 var partialBatches = []B{{in("a", "1"), in("b", "1"), in("c", "1")}, {d("b")}, {u("a", "2")}, {in("d", "1")}}
 
+// a two-document segment WITHOUT deletions goes into a merge; a delete of one of its documents lands while
+// the merge is in flight; the segment keeps a live document
+var lateDeleteBatches = []B{{in("a", "1"), in("b", "1")}, {in("c", "1")}, {d("a")}, {in("e", "1")}, {u("c", "2")}}
+
 // Scenarios shared by C04, C06 and C11.
 var Scenarios = map[string]Scenario{
 	// readers of three ages held while updates/deletes, eager file merges, persists and clean-ups go on
@@ -37,6 +41,9 @@ var Scenarios = map[string]Scenario{
 	"mg-partial-ucf-nomem":    {Quiesce: true, Batches: partialBatches, Opts: harness.Opts{EagerMerge: true, Unsafe: true, NoMemMerge: true}, FreshAfterEach: true, ClientsFirst: true, IDs: []string{"a", "b", "c", "d"}},
 	"mg-partial-unsafe":       {Batches: partialBatches, Opts: harness.Opts{EagerMerge: true, Unsafe: true}, FreshAfterEach: true, IDs: []string{"a", "b", "c", "d"}},
 	"mg-partial-ucf-nomem-f1": {Quiesce: true, Batches: partialBatches, Opts: harness.Opts{EagerMerge: true, MergeFloor1: true, Unsafe: true, NoMemMerge: true}, FreshAfterEach: true, ClientsFirst: true, IDs: []string{"a", "b", "c", "d"}},
+	"mg-late":                 {Batches: lateDeleteBatches, Opts: harness.Opts{EagerMerge: true}, FreshAfterEach: true, IDs: []string{"a", "b", "c", "e"}},
+	"mg-late-unsafe":          {Batches: lateDeleteBatches, Opts: harness.Opts{EagerMerge: true, Unsafe: true}, FreshAfterEach: true, IDs: []string{"a", "b", "c", "e"}},
+	"mg-late-ucf-nomem":       {Quiesce: true, Batches: lateDeleteBatches, Opts: harness.Opts{EagerMerge: true, Unsafe: true, NoMemMerge: true}, FreshAfterEach: true, ClientsFirst: true, IDs: []string{"a", "b", "c", "e"}},
 	"mg-empty":                {Batches: emptyingBatches, Opts: harness.Opts{EagerMerge: true}, FreshAfterEach: true},
 	"mg-empty-ucf":            {Batches: emptyingBatches, Opts: harness.Opts{EagerMerge: true, Unsafe: true}, FreshAfterEach: true, ClientsFirst: true},
 	"mg-nap":                  {Batches: mergeBatches[:4], Opts: harness.Opts{EagerMerge: true, Unsafe: true, NapMS: 5}, FreshAfterEach: true, ClientsFirst: true},
